@@ -341,7 +341,11 @@ fn apply_predictor(decoded: Vec<u8>, params: &LZWFlateParams) -> Result<Vec<u8>>
 
     // PNG predictors: each row is preceded by a byte selecting the filter of that row
     let inp = decoded; // input buffer
-    let rows = inp.len() / (stride+1);
+    let rows = inp.len() / stride.saturating_add(1);
+    if rows == 0 {
+        // not a single complete row (also keeps a huge /Columns from allocating a row buffer)
+        return Ok(Vec::new());
+    }
 
     // output buffer
     let mut out = vec![0; rows * stride];
